@@ -594,6 +594,14 @@ func (c *ChannelArbitrator) progressStateMachineAfterRestart(bestHeight int32,
 		if err != nil {
 			return err
 		}
+
+		// Relaunching may have removed contracts that were already
+		// resolved before the restart. Check again whether anything
+		// is left to wait for.
+		_, _, err = c.advanceState(triggerHeight, trigger, commitSet)
+		if err != nil {
+			return err
+		}
 	}
 
 	return nil
@@ -684,6 +692,29 @@ func (c *ChannelArbitrator) relaunchResolvers(commitSet *CommitSet,
 	if err != nil {
 		return err
 	}
+
+	// A resolver checkpoints its resolved state from within Resolve, while
+	// the contract is only deleted from the log afterwards, in a separate
+	// transaction. If we shut down in between, the contract is loaded as
+	// already resolved: it will neither be launched nor resolved again, so
+	// we finish its removal here. Otherwise it would keep the channel in
+	// StateWaitingFullResolution forever.
+	pendingContracts := unresolvedContracts[:0]
+	for _, resolver := range unresolvedContracts {
+		if !resolver.IsResolved() {
+			pendingContracts = append(pendingContracts, resolver)
+			continue
+		}
+
+		log.Infof("ChannelArbitrator(%v): removing contract %T that "+
+			"was resolved before the restart", c.cfg.ChanPoint,
+			resolver)
+
+		if err := c.log.ResolveContract(resolver); err != nil {
+			return err
+		}
+	}
+	unresolvedContracts = pendingContracts
 
 	// Retrieve the commitment tx hash from the log.
 	contractResolutions, err := c.log.FetchContractResolutions()
